@@ -41,6 +41,8 @@ def plan(tier, seed):
         shards.append({"kind": "namespace", "seed": seed, "start": start, "count": per})
     for start in range(0, n_rl, per):
         shards.append({"kind": "reload", "seed": seed, "start": start, "count": per})
+    for start in range(0, n_ns // 3, per):
+        shards.append({"kind": "faulted", "seed": seed, "start": start, "count": per})
     for s in shards:
         s["tier"] = tier
     return shards
@@ -80,6 +82,58 @@ def names_of(scfg):
     return [k for k, b, sc, par, d in all_items(scfg)]
 
 
+EXITLESS = [
+    {"0": ("1",), "1": ("1",)},
+    {"0": ("1",), "1": ("2",), "2": ("1",)},
+    {"0": ("1", "2"), "1": ("2",), "2": ("1",)},
+    {"0": ("1",), "1": ("2", "3"), "2": ("1",), "3": ("1",)},
+]
+
+
+def fault_prefix(case, ctx):
+    """A stage fails on a first graph - refused by the library (a loop nothing
+    leaves: StopIteration; two entry blocks: AssertionError) or aborted by an
+    injected exception - and the graph of the case is then built on the SAME
+    name generator, by the constructor or block by block."""
+    from numba_scfg.core.datastructures.scfg import SCFG
+    from numba_scfg.core.datastructures.basic_block import PythonBytecodeBlock
+    from ..monitors import fault
+
+    rng = random.Random(core.sha([case["g"], "c18fault"]))
+    mode = case["fault"]
+    if mode == "exitless":
+        ga = rng.choice(EXITLESS)
+    elif mode == "two_heads":
+        ga = {"0": ("2",), "1": ("2",), "2": ("3", "4"), "3": (), "4": ("2",)}
+    else:
+        ga = graphs.make_case("loop", 0, rng.randrange(1000)) or {"0": ("1", "0"), "1": ()}
+    a = drivers.make_scfg(ga, "basic")
+
+    def stages():
+        for nm in ("join_returns", "restructure_loop", "restructure_branch"):
+            getattr(a, nm)()
+
+    if mode == "injected":
+        fault.inject_around(ctx, rng, stages, tries=1, cold_key="C18")
+    else:
+        try:
+            stages()
+            ctx.hit("c18.fault_graph_accepted")
+        except Exception:
+            ctx.hit("M-fault.natural_refusals")
+    g = {k: tuple(v) for k, v in case["g"].items()}
+    blocks = {k: PythonBytecodeBlock(name=k, _jump_targets=tuple(v), begin=2 * i, end=2 * i + 2)
+              for i, (k, v) in enumerate(g.items())}
+    if case.get("how") == "add_block":
+        b = SCFG({}, name_gen=a.name_gen)
+        for blk in blocks.values():
+            b.add_block(blk)
+    else:
+        b = SCFG(blocks, name_gen=a.name_gen)
+    ctx.hit("c18.graphs_built_on_generator_of_failed_graph")
+    return b
+
+
 def staged(case, acc, reloads):
     """Run J,L,B on the graph; `reloads` maps a stage boundary (0..2) to 'dict'/'yaml'."""
     from numba_scfg.core.datastructures.scfg import SCFG
@@ -89,7 +143,10 @@ def staged(case, acc, reloads):
     attach.ACTIVE.clear()
     N.reset()
     g = {k: tuple(v) for k, v in case["g"].items()}
-    scfg = drivers.make_scfg(g, "bytecode", case.get("how", "ctor"))
+    if case.get("fault"):
+        scfg = fault_prefix(case, ctx)
+    else:
+        scfg = drivers.make_scfg(g, "bytecode", case.get("how", "ctor"))
     before_all = set(g)
     phase = "stages"
     for i, st in enumerate("JLB"):
@@ -163,6 +220,16 @@ def run_shard(spec):
             staged({"kind": "namespace", "g": g, "reloads": {}, "how": how}, acc, {})
             acc.counters["namespace_graphs"] += 1
             acc.counters["namespace_graphs.built_by_" + how] += 1
+    elif k == "faulted":
+        for i in range(spec["start"], spec["start"] + spec["count"]):
+            g = graphs.make_case("names_namespace" if i % 4 else "loop", spec["seed"], 300000 + i)
+            if g is None:
+                continue
+            mode = ["exitless", "injected", "two_heads", "injected"][(i // 2) % 4]
+            how = "add_block" if i % 2 else "ctor"
+            staged({"kind": "faulted", "g": g, "reloads": {}, "how": how, "fault": mode}, acc, {})
+            acc.counters["fault_histories"] += 1
+            acc.counters["fault_histories." + mode] += 1
     elif k == "reload":
         for i in range(spec["start"], spec["start"] + spec["count"]):
             rng = random.Random(f"c18l/{spec['seed']}/{i}")
